@@ -215,6 +215,63 @@ def validator_calls(prog, fn):
   return out
 
 
+class _Guards(frozenset):
+  """own hyper-parameter names read by the structural guards of a call; the
+  guard tests themselves are kept for evaluation."""
+  tests = ()
+  fn = None
+
+
+def _guard_reads(m, call, own_params):
+  from ..cfg import structural_guards
+  out = set()
+  tests = []
+  for t, pol in structural_guards(m.node, call) or []:
+    hit = False
+    for r in names_read(t):
+      name = r[5:] if r.startswith('self.') else r
+      if name in own_params:
+        out.add(name)
+        hit = True
+    if hit:
+      tests.append((t, pol))
+  g = _Guards(out)
+  g.tests = tuple(tests)
+  g.fn = m
+  return g
+
+
+def _guard_holds_when_set(prog, g, p):
+  """True when every guard test holds in each state in which p is given and
+  all other hyper-parameters the guards read are left unset."""
+  from .guards import Logic, Val, TYPE_STATES, atom_type
+  if not g.tests:
+    return True
+  others = sorted(set(g) - {p})
+  typ = atom_type(p)
+  if typ == 'opaque':
+    return False
+  unset = {'bound': 'none', 'list': 'none', 'tuples': 'none', 'sign': 'none',
+           'flag': 'false', 'count': 'zero'}
+  for st in TYPE_STATES[typ]:
+    if st in ('none', 'false', 'empty'):
+      continue
+    env = {}
+    for nm in [p] + others:
+      t = atom_type(nm)
+      if t == 'opaque':
+        return False
+      v = Val(t, st if nm == p else unset[t])
+      env[nm] = v
+      env['self.' + nm] = v
+    lg = Logic(prog, g.fn, env)
+    for test, pol in g.tests:
+      tv = lg.truth(test)
+      if tv is None or tv != pol:
+        return False
+  return True
+
+
 def validated_params(prog, cls, methods=('__init__', 'build'), depth=0):
   """{validator param: [(where, value expr)]} over all validator calls that
   run when an instance of cls is constructed / built, including validators
@@ -232,12 +289,13 @@ def validated_params(prog, cls, methods=('__init__', 'build'), depth=0):
       continue
     for call, v in validator_calls(prog, m):
       bound, _, _ = call_args(call, v.all_params)
+      gr = _guard_reads(m, call, own_params)
       for p, val in bound.items():
         for r in names_read(val):
           name = r[5:] if r.startswith('self.') else r
           if name in own_params:
             own.setdefault(name, []).append(
-                ('%s->%s(%s=)' % (m.qualname, v.qualname, p), p))
+                ('%s->%s(%s=)' % (m.qualname, v.qualname, p), p, gr))
     if depth < 2:
       for c in ast.walk(m.node):
         if not isinstance(c, ast.Call):
@@ -248,13 +306,14 @@ def validated_params(prog, cls, methods=('__init__', 'build'), depth=0):
           sub = validated_params(prog, r, ('__init__',), depth + 1)
           rinit = r.find_method('__init__')
           bound, _, _ = call_args(c, rinit.all_params)
+          gr = _guard_reads(m, c, own_params)
           for p, val in bound.items():
             if p in sub:
               for rd in names_read(val):
                 name = rd[5:] if rd.startswith('self.') else rd
                 if name in own_params:
                   own.setdefault(name, []).append(
-                      ('%s->%s(%s=)' % (m.qualname, r.qualname, p), p))
+                      ('%s->%s(%s=)' % (m.qualname, r.qualname, p), p, gr))
   return own
 
 
@@ -278,8 +337,21 @@ def check_validator_belief(prog, res, cls, validator, rule='V1', aliases=None,
       res.ok(rule, key, init.loc(), 'exempt: ' + exempt[p])
       continue
     ev = got.get(p)
+    # evidence under a guard that tests OTHER hyper-parameters only validates
+    # p in some configurations
+    free = [e for e in (ev or []) if e[2] <= {p} or
+            _guard_holds_when_set(prog, e[2], p)]
+    if ev and not free:
+      others = sorted(set().union(*[e[2] for e in ev]) - {p})
+      res.violation(rule, key, init.loc(),
+                    'constructor parameter %r of %s reaches %s only through '
+                    '%s, which runs only when %s is set: with those left at '
+                    'their defaults an invalid %s is accepted' % (
+                        p, cls.name, validator.qualname, ev[0][0],
+                        ' / '.join(others), p))
+      continue
     res.check(bool(ev), rule, key, init.loc(),
-              'validated via %s' % (ev[0][0] if ev else ''),
+              'validated via %s' % (free[0][0] if free else ''),
               'constructor parameter %r of %s is accepted by %s but is never '
               'passed to it during construction or build: invalid values are '
               'not rejected up front' % (p, cls.name, validator.qualname))
